@@ -25,6 +25,9 @@ struct Pair {
     setup: Vec<Op>,
     /// the operation under test
     op: Op,
+    /// the operation is one that krill must refuse (its only write is the
+    /// audit record of the refusal)
+    refused: bool,
 }
 
 fn roa(ca: &str, add: &[&str], rem: &[&str]) -> Op {
@@ -51,6 +54,26 @@ fn base_setup() -> Vec<Op> {
     ]
 }
 
+/// Successful commands on both CAs issued right before the operation under
+/// test WITHOUT anything read in between: the aggregate cache is then one
+/// command behind the store when the operation starts (the cache is brought
+/// up to date by the next access, not by the command itself).
+fn primes() -> Vec<Op> {
+    vec![
+        roa("p", &["10.6.0.0/16 => 65007"], &[]),
+        roa("c", &["10.0.8.0/24 => 65003"], &[]),
+    ]
+}
+
+/// Accepted commands issued after recovery: whatever the instance
+/// acknowledges after the fault must survive a restart as well.
+fn probes() -> Vec<Op> {
+    vec![
+        roa("p", &["10.7.0.0/16 => 65008"], &[]),
+        roa("c", &["10.0.9.0/24 => 65003"], &[]),
+    ]
+}
+
 fn pairs() -> Vec<Pair> {
     let upd = |asn: &str, v4: &str, v6: &str| Op::ChildUpdate {
         parent: "p".into(), child: "c".into(), asn: asn.into(),
@@ -70,42 +93,44 @@ fn pairs() -> Vec<Pair> {
         roa("c", &["172.16.0.0/16 => 65015"], &[]), Op::Quiesce,
     ];
     vec![
-        Pair { name: "roa_delta/steady", setup: vec![],
+        Pair { refused: false, name: "roa_delta/steady", setup: vec![],
             op: roa("c", &["10.0.1.0/24 => 65002"], &["10.0.0.0/24-24 => 65000"]) },
-        Pair { name: "roa_delta/roll_new", setup: roll_new.clone(),
+        Pair { refused: true, name: "roa_delta_refused/steady", setup: vec![],
+            op: roa("c", &["192.168.0.0/24 => 65000"], &[]) },
+        Pair { refused: false, name: "roa_delta/roll_new", setup: roll_new.clone(),
             op: roa("c", &["10.0.1.0/24 => 65002"], &[]) },
-        Pair { name: "aspa_update/steady", setup: vec![],
+        Pair { refused: false, name: "aspa_update/steady", setup: vec![],
             op: Op::AspaUpdate { ca: "c".into(),
                 add: vec!["65000 => 65001, 65002".into()], remove: vec![] } },
-        Pair { name: "bgpsec_add/steady", setup: vec![],
+        Pair { refused: false, name: "bgpsec_add/steady", setup: vec![],
             op: Op::BgpsecAdd { ca: "c".into(), asn: 65001, key: 0 } },
-        Pair { name: "child_update_shrink/steady", setup: vec![],
+        Pair { refused: false, name: "child_update_shrink/steady", setup: vec![],
             op: upd("AS65000-AS65001", "10.0.0.0/16", "") },
-        Pair { name: "child_update_grow/steady", setup: vec![],
+        Pair { refused: false, name: "child_update_grow/steady", setup: vec![],
             op: upd("AS65000-AS65005",
                     "10.0.0.0/16, 10.1.0.0/16, 10.3.0.0/16", "2001:db8::/48") },
-        Pair { name: "child_suspend/steady", setup: vec![],
+        Pair { refused: false, name: "child_suspend/steady", setup: vec![],
             op: Op::ChildSuspend { parent: "p".into(), child: "c".into() } },
-        Pair { name: "child_remove/steady", setup: vec![],
+        Pair { refused: false, name: "child_remove/steady", setup: vec![],
             op: Op::ChildRemove { parent: "p".into(), child: "c".into() } },
-        Pair { name: "roll_init/steady", setup: vec![],
+        Pair { refused: false, name: "roll_init/steady", setup: vec![],
             op: Op::RollInit { ca: "c".into() } },
-        Pair { name: "roll_activate/roll_new", setup: roll_new,
+        Pair { refused: false, name: "roll_activate/roll_new", setup: roll_new,
             op: Op::RollActivate { ca: "c".into() } },
-        Pair { name: "remove_parent/two_parents", setup: with_q,
+        Pair { refused: false, name: "remove_parent/two_parents", setup: with_q,
             op: Op::RemoveParent { ca: "c".into(), parent: "q".into() } },
-        Pair { name: "republish_force/steady", setup: vec![],
+        Pair { refused: false, name: "republish_force/steady", setup: vec![],
             op: Op::RepublishAll { force: true } },
-        Pair { name: "force_renew_roas/steady", setup: vec![],
+        Pair { refused: false, name: "force_renew_roas/steady", setup: vec![],
             op: Op::ForceRenewRoas },
-        Pair { name: "delete_ca/leaf", setup: vec![],
+        Pair { refused: false, name: "delete_ca/leaf", setup: vec![],
             op: Op::DeleteCa { ca: "c".into() } },
-        Pair { name: "parent_roll_init/with_child", setup: vec![],
+        Pair { refused: false, name: "parent_roll_init/with_child", setup: vec![],
             op: Op::RollInit { ca: "p".into() } },
-        Pair { name: "add_child/steady", setup: vec![],
+        Pair { refused: false, name: "add_child/steady", setup: vec![],
             op: Op::AddChildOnly { ca: "d".into(), parent: "p".into(),
                 asn: "AS65004".into(), v4: "10.4.0.0/16".into(), v6: "".into() } },
-        Pair { name: "add_parent/child_registered", setup: vec![
+        Pair { refused: false, name: "add_parent/child_registered", setup: vec![
                 Op::AddChildOnly { ca: "d".into(), parent: "p".into(),
                     asn: "AS65004".into(), v4: "10.4.0.0/16".into(),
                     v6: "".into() },
@@ -345,6 +370,11 @@ fn settle_and_validate(w: &mut World) -> Vec<Issue> {
 }
 
 struct PairCtx {
+    /// normal form of the fault-free run after the probe commands
+    n_twin_probe: Value,
+    /// which probe commands the fault-free run accepted
+    probe_ok: Vec<bool>,
+    refused: bool,
     cfg: WorldCfg,
     pair_name: &'static str,
     op: Op,
@@ -382,7 +412,52 @@ fn recover_and_compare(
         return vec![("state-diverges-from-fault-free-run".into(),
                      format!("fault-free vs recovered: {d}"))]
     }
+    // O6: the recovered instance keeps recording: further accepted commands
+    // behave as in the fault-free run ...
+    for (i, probe) in probes().iter().enumerate() {
+        let out = hist::apply(w, probe);
+        if let hist::Outcome::Panicked(p) = &out {
+            return vec![("probe-panics".into(), p.clone())]
+        }
+        if out.is_ok() != ctx.probe_ok[i] {
+            return vec![("after-probe:outcome-differs".into(),
+                format!("{probe:?}: fault-free run {}, recovered instance {out:?}",
+                        if ctx.probe_ok[i] { "accepted" } else { "refused" }))]
+        }
+    }
+    issues = settle_and_validate(w);
+    r.eval();
+    if !issues.is_empty() {
+        return issues.into_iter()
+            .map(|(s, d)| (format!("after-probe:{s}"), d)).collect()
+    }
+    if let Some(d) = first_diff(&ctx.n_twin_probe, &normal_form(w), String::new()) {
+        return vec![("state-diverges-after-probe".into(),
+                     format!("fault-free vs recovered: {d}"))]
+    }
     vec![]
+}
+
+/// ... and whatever was acknowledged since the fault survives a restart.
+fn restart_and_compare(ctx: &PairCtx, r: &mut Report) -> Vec<Issue> {
+    let cfg2 = ctx.cfg.clone();
+    match catch(move || World::open(cfg2)) {
+        Err(p) => vec![("restart-panics".into(), p)],
+        Ok(mut w3) => {
+            let mut j = loads_and_keeps(&w3, &ctx.v_pre, &ctx.cas_pre);
+            if j.is_empty() { j = settle_and_validate(&mut w3) }
+            if j.is_empty() {
+                if let Some(d) = first_diff(
+                    &ctx.n_twin_probe, &normal_form(&w3), String::new())
+                {
+                    j.push(("state-diverges-after-restart".into(), d));
+                }
+            }
+            r.eval();
+            drop(w3);
+            j
+        }
+    }
 }
 
 /// Whether an issue is a symptom of stores disagreeing with each other
@@ -390,7 +465,7 @@ fn recover_and_compare(
 /// lost, a panic).
 fn is_consistency_issue(sig: &str) -> bool {
     sig.starts_with("after-recovery:") || sig.starts_with("after-resubmission:")
-        || sig.starts_with("state-diverges")
+        || sig.starts_with("after-probe:") || sig.starts_with("state-diverges")
 }
 
 /// If cut `n` lies between a pre-save listener write (ca_objects, task
@@ -470,7 +545,6 @@ fn run_pair(r: &mut Report, args: &Args, pair: &Pair, rng: &mut Rng) {
         r.inconclusive(format!("{}: setup did not settle", pair.name));
         return
     }
-    let v_pre = versions(&w);
     let cas_pre: BTreeSet<String> = w.ca_handles().into_iter()
         .filter(|c| !matches!((&pair.op, c.as_str()),
                               (Op::DeleteCa { .. }, "c"))).collect();
@@ -478,6 +552,15 @@ fn run_pair(r: &mut Report, args: &Args, pair: &Pair, rng: &mut Rng) {
     let repo = w.repo_dir();
     kvh::util::copy_dir(&data, &pre.join("data")).unwrap();
     kvh::util::copy_dir(&repo, &pre.join("repo")).unwrap();
+    // priming commands, nothing read or run afterwards (see primes())
+    for p in primes() {
+        let out = hist::apply(&mut w, &p);
+        if !out.is_ok() {
+            r.inconclusive(format!("{}: priming {p:?}: {out:?}", pair.name));
+            return
+        }
+    }
+    let v_pre = versions(&w);
 
     // ---- twin (fault-free) run, recording every mutation ----------------
     let max_cuts = if args.thorough() { 400 } else { 6 };
@@ -488,9 +571,10 @@ fn run_pair(r: &mut Report, args: &Args, pair: &Pair, rng: &mut Rng) {
     let out = hist::apply(&mut w, &pair.op);
     let (_runs, _ok) = w.quiesce();
     let (muts, _) = hooks::end();
-    if !out.is_ok() {
-        r.inconclusive(format!("{}: operation refused in the fault-free \
-                                run: {out:?}", pair.name));
+    if out.is_ok() == pair.refused {
+        r.inconclusive(format!("{}: operation {} in the fault-free \
+                                run: {out:?}", pair.name,
+                               if pair.refused { "accepted" } else { "refused" }));
         return
     }
     let issues = settle_and_validate(&mut w);
@@ -500,6 +584,15 @@ fn run_pair(r: &mut Report, args: &Args, pair: &Pair, rng: &mut Rng) {
         return
     }
     let n_twin = normal_form(&w);
+    let mut probe_ok = vec![];
+    for probe in probes() { probe_ok.push(hist::apply(&mut w, &probe).is_ok()) }
+    let issues = settle_and_validate(&mut w);
+    if let Some((s, d)) = issues.first() {
+        r.inconclusive(format!("{}: fault-free run after probes: {s}: {d}",
+                               pair.name));
+        return
+    }
+    let n_twin_probe = normal_form(&w);
     drop(w);
     let strip = dir.to_string_lossy().to_string();
     r.max("cuts_per_pair", muts.len() as u64);
@@ -507,7 +600,8 @@ fn run_pair(r: &mut Report, args: &Args, pair: &Pair, rng: &mut Rng) {
     r.distinct("pairs", pair.name);
     let ctx = PairCtx {
         cfg: cfg.clone(), pair_name: pair.name, op: pair.op.clone(),
-        v_pre, cas_pre, n_twin, strip,
+        v_pre, cas_pre, n_twin, strip, n_twin_probe, probe_ok,
+        refused: pair.refused,
     };
     if r.samples.len() < 2 {
         r.sample(json!({
@@ -548,8 +642,9 @@ fn run_pair(r: &mut Report, args: &Args, pair: &Pair, rng: &mut Rng) {
                 match catch(move || World::open(cfg2)) {
                     Err(p) => vec![("restart-panics".into(), p)],
                     Ok(mut w2) => {
-                        let i = recover_and_compare(&mut w2, &ctx, r);
+                        let mut i = recover_and_compare(&mut w2, &ctx, r);
                         drop(w2);
+                        if i.is_empty() { i = restart_and_compare(&ctx, r) }
                         i
                     }
                 }
@@ -558,6 +653,21 @@ fn run_pair(r: &mut Report, args: &Args, pair: &Pair, rng: &mut Rng) {
                 hooks::restore_dir(&pre.join("repo"), &repo);
                 let mut w2 = World::open_raw(ctx.cfg.clone());
                 w2.no_directed = true;
+                let mut primed = true;
+                for p in primes() { primed &= hist::apply(&mut w2, &p).is_ok() }
+                if !primed {
+                    r.inconclusive(format!("{}: priming failed before the \
+                        failing-write run", ctx.pair_name));
+                    drop(w2);
+                    continue
+                }
+                if n % 2 == 1 {
+                    // odd cuts: the cache is brought up to date first
+                    for ca in w2.ca_handles() { let _ = w2.ca_info(&ca); }
+                    r.count("eio_cache_current", 1);
+                } else {
+                    r.count("eio_cache_behind", 1);
+                }
                 hooks::begin(None, Some(n), None);
                 let out = hist::apply(&mut w2, &ctx.op);
                 let (runs, _) = w2.quiesce();
@@ -589,38 +699,13 @@ fn run_pair(r: &mut Report, args: &Args, pair: &Pair, rng: &mut Rng) {
                         Ok(mut w3) => {
                             i = recover_and_compare(&mut w3, &ctx, r);
                             drop(w3);
+                            if i.is_empty() { i = restart_and_compare(&ctx, r) }
                         }
                     }
                 } else {
                     i = recover_and_compare(&mut w2, &ctx, r);
-                    if i.is_empty() {
-                        // ... and the same after a restart
-                        let cfg2 = ctx.cfg.clone();
-                        drop(w2);
-                        match catch(move || World::open(cfg2)) {
-                            Err(p) => i.push(("restart-panics".into(), p)),
-                            Ok(mut w3) => {
-                                let mut j = loads_and_keeps(
-                                    &w3, &ctx.v_pre, &ctx.cas_pre);
-                                if j.is_empty() { j = settle_and_validate(&mut w3) }
-                                if j.is_empty() {
-                                    if let Some(d) = first_diff(
-                                        &ctx.n_twin, &normal_form(&w3),
-                                        String::new())
-                                    {
-                                        j.push((
-                                            "state-diverges-after-restart".into(),
-                                            d));
-                                    }
-                                }
-                                r.eval();
-                                i = j;
-                                drop(w3);
-                            }
-                        }
-                    } else {
-                        drop(w2);
-                    }
+                    drop(w2);
+                    if i.is_empty() { i = restart_and_compare(&ctx, r) }
                 }
                 i
             };
